@@ -263,12 +263,25 @@ private:
 
     std::optional<DFS::SectorBuffer> read_block(unsigned long lba) override
     {
-      if (lba >= sectors_.size())
+      // Find the sector by its address rather than by position:
+      // sectors which could not be decoded are absent from sectors_,
+      // so the n-th element is not necessarily sector n.
+      if (geom_.sectors == 0)
 	return std::nullopt;
-      const Sector& sect(sectors_[lba]);
-      DFS::SectorBuffer buf;
-      std::copy(sect.data.begin(), sect.data.end(), buf.begin());
-      return buf;
+      const unsigned long cylinder = lba / geom_.sectors;
+      const unsigned long record = lba % geom_.sectors;
+      for (const Sector& sect : sectors_)
+	{
+	  if (sect.address.cylinder == cylinder
+	      && sect.address.head == side_
+	      && sect.address.record == record)
+	    {
+	      DFS::SectorBuffer buf;
+	      std::copy(sect.data.begin(), sect.data.end(), buf.begin());
+	      return buf;
+	    }
+	}
+      return std::nullopt;
     }
 
     std::string description() const override
